@@ -397,8 +397,10 @@ func (p *pdr) parseFTEID(teidIE *ie.IE) error {
 
 	teid := fteid.TEID
 	if fteid.HasCh() {
+		// the UPF chooses the TEID: an explicit F-TEID of the same PDI does not apply
 		p.UPAllocateFteid = true
-	} else if teid != 0 {
+		p.tunnelTEID, p.tunnelTEIDMask, p.tunnelIP4Dst, p.tunnelIP4DstMask = 0, 0, 0, 0
+	} else if teid != 0 && !p.UPAllocateFteid {
 		p.tunnelTEID = teid
 		p.tunnelTEIDMask = 0xFFFFFFFF
 		p.tunnelIP4Dst = ip2int(fteid.IPv4Address)
